@@ -401,3 +401,124 @@ Example fam_xp_recreate_after_delete_commits :
   | (rs, committed, _, _) => (rs, committed)
   end = ([None], true).
 Proof. vm_compute. reflexivity. Qed.
+
+(* ---- bare child stores: child stores (plain, Extended(), one without any field, one next to a sibling that owns a unique
+   index, a family that is cascade-deleted with its owner) that declare NO index and NO constraint, under a parent store
+   that carries unique and set indexes (harness/cmd/storageharness/store_c03b.go: c03bareP c03bareX c03bareXP c03barePu).
+   An operation entered through such a store runs the constraint chain of the parent (chain / cons_of), so the C03
+   theorems demand that it maintains the parent's indexes.  The text between the two markers is printed by
+   "storageharness store_c03b_coq" from the wirings the harness runs and compared with this file by checks/c03.py. *)
+(* BEGIN generated by storageharness store_c03b_coq *)
+Definition bm_code : name := [99;111;100;101].
+Definition bm_d : name := [100].
+Definition bm_k : name := [107].
+Definition bm_labels : name := [108;97;98;101;108;115].
+Definition bm_memo : name := [109;101;109;111].
+Definition bm_name : name := [110;97;109;101].
+Definition bm_nick : name := [110;105;99;107].
+Definition bm_o : name := [111].
+Definition bm_owner : name := [111;119;110;101;114].
+Definition bm_p : name := [112].
+Definition bm_pc : name := [112;99].
+Definition bm_pd : name := [112;100].
+Definition bm_pe : name := [112;101].
+Definition bm_ps : name := [112;115].
+Definition bm_px : name := [112;120].
+Definition bm_roles : name := [114;111;108;101;115].
+Definition bm_skills : name := [115;107;105;108;108;115].
+Definition bm_title : name := [116;105;116;108;101].
+Definition bm_x : name := [120].
+
+Definition c03bareP_schema : schema :=
+  [ mkSdef bm_p None false [(bm_name, false); (bm_nick, true); (bm_memo, true)] [bm_roles; bm_skills]
+      [CUnique bm_name false; CSetIdx bm_roles; CUnique bm_nick true; CSetIdx bm_skills] [];
+    mkSdef bm_pc (Some bm_p) false [(bm_k, true); (bm_code, false)] []
+      [] [] ].
+Example c03bareP_wf_unique_p_name : wf_unique_b c03bareP_schema bm_p bm_name = true.
+Proof. vm_compute. reflexivity. Qed.
+Example c03bareP_wf_setidx_p_roles : wf_setidx_b c03bareP_schema bm_p bm_roles = true.
+Proof. vm_compute. reflexivity. Qed.
+Example c03bareP_wf_unique_p_nick : wf_unique_b c03bareP_schema bm_p bm_nick = true.
+Proof. vm_compute. reflexivity. Qed.
+Example c03bareP_wf_setidx_p_skills : wf_setidx_b c03bareP_schema bm_p bm_skills = true.
+Proof. vm_compute. reflexivity. Qed.
+
+Definition c03bareX_schema : schema :=
+  [ mkSdef bm_p None false [(bm_name, false); (bm_nick, true); (bm_memo, true)] [bm_roles; bm_skills]
+      [CSetIdx bm_roles; CUnique bm_nick true; CUnique bm_name false] [];
+    mkSdef bm_px (Some bm_p) true [(bm_x, true)] []
+      [] [] ].
+Example c03bareX_wf_setidx_p_roles : wf_setidx_b c03bareX_schema bm_p bm_roles = true.
+Proof. vm_compute. reflexivity. Qed.
+Example c03bareX_wf_unique_p_nick : wf_unique_b c03bareX_schema bm_p bm_nick = true.
+Proof. vm_compute. reflexivity. Qed.
+Example c03bareX_wf_unique_p_name : wf_unique_b c03bareX_schema bm_p bm_name = true.
+Proof. vm_compute. reflexivity. Qed.
+
+Definition c03bareXP_schema : schema :=
+  [ mkSdef bm_o None false [(bm_title, false)] [bm_labels]
+      [CUnique bm_title false; CSetIdx bm_labels; CFkCascade bm_p bm_owner CascDelete] [];
+    mkSdef bm_p None false [(bm_name, false); (bm_nick, true); (bm_memo, true); (bm_owner, false)] [bm_roles; bm_skills]
+      [CUnique bm_name false; CFkIndex bm_owner bm_o bm_ps false; CSetIdx bm_roles; CUnique bm_nick true] [];
+    mkSdef bm_px (Some bm_p) true [(bm_x, true)] []
+      [] [];
+    mkSdef bm_pc (Some bm_p) false [(bm_k, true); (bm_code, false)] []
+      [] [] ].
+Example c03bareXP_wf_unique_o_title : wf_unique_b c03bareXP_schema bm_o bm_title = true.
+Proof. vm_compute. reflexivity. Qed.
+Example c03bareXP_wf_setidx_o_labels : wf_setidx_b c03bareXP_schema bm_o bm_labels = true.
+Proof. vm_compute. reflexivity. Qed.
+Example c03bareXP_wf_unique_p_name : wf_unique_b c03bareXP_schema bm_p bm_name = true.
+Proof. vm_compute. reflexivity. Qed.
+Example c03bareXP_wf_setidx_p_roles : wf_setidx_b c03bareXP_schema bm_p bm_roles = true.
+Proof. vm_compute. reflexivity. Qed.
+Example c03bareXP_wf_unique_p_nick : wf_unique_b c03bareXP_schema bm_p bm_nick = true.
+Proof. vm_compute. reflexivity. Qed.
+
+Definition c03barePu_schema : schema :=
+  [ mkSdef bm_p None false [(bm_name, false); (bm_nick, true); (bm_memo, true)] [bm_roles; bm_skills]
+      [CUnique bm_name false; CSetIdx bm_roles; CUnique bm_nick true; CSetIdx bm_skills] [];
+    mkSdef bm_pe (Some bm_p) false [] []
+      [] [];
+    mkSdef bm_pd (Some bm_p) false [(bm_d, true)] []
+      [CUnique bm_d true] [] ].
+Example c03barePu_wf_unique_p_name : wf_unique_b c03barePu_schema bm_p bm_name = true.
+Proof. vm_compute. reflexivity. Qed.
+Example c03barePu_wf_setidx_p_roles : wf_setidx_b c03barePu_schema bm_p bm_roles = true.
+Proof. vm_compute. reflexivity. Qed.
+Example c03barePu_wf_unique_p_nick : wf_unique_b c03barePu_schema bm_p bm_nick = true.
+Proof. vm_compute. reflexivity. Qed.
+Example c03barePu_wf_setidx_p_skills : wf_setidx_b c03barePu_schema bm_p bm_skills = true.
+Proof. vm_compute. reflexivity. Qed.
+Example c03barePu_wf_cunique_pd_d : wf_cunique_b c03barePu_schema bm_pd bm_d = true.
+Proof. vm_compute. reflexivity. Qed.
+
+(* END generated by storageharness store_c03b_coq *)
+
+(* Non-vacuity.  In the machine a create through a bare child store fills the parent's indexes, a second entity with the
+   same unique value is refused through the same store, and an update that replaces a string list by another GROUPING of
+   the same character sequence ({"a", "b,c"} -> {"a,b", "c"}: same size, same text when joined with a comma) moves the
+   index rows. *)
+Definition bare_mk (s i : name) (nm : str) (l : list str) : op :=
+  OCreate s i false [(bm_name, Some nm); (bm_nick, None); (bm_memo, None); (bm_k, None); (bm_code, Some [102])]
+    [(bm_roles, l); (bm_skills, [])].
+Definition bare_grp1 : list str := [[97]; [98;44;99]].
+Definition bare_grp2 : list str := [[97;44;98]; [99]].
+Example bare_create_through_child_fills_parent_indexes :
+  let st := run_txs c03bareP_schema 8 st_empty [mkTx false [] [bare_mk bm_pc [97] [110] bare_grp1] false] in
+  (uidx st bm_p bm_name, sidx st bm_p bm_roles)
+  = ([([110], [97])], [([97], [[97]]); ([98;44;99], [[97]])]).
+Proof. vm_compute. reflexivity. Qed.
+Example bare_duplicate_through_child_refused :
+  match run_tx c03bareP_schema 8
+          (run_txs c03bareP_schema 8 st_empty [mkTx false [] [bare_mk bm_pc [97] [110] bare_grp1] false])
+          (mkTx false [] [bare_mk bm_pc [98] [110] []] false) with
+  | (rs, committed, _, _) => (rs, committed)
+  end = ([Some EDuplicate], false).
+Proof. vm_compute. reflexivity. Qed.
+Example bare_regroup_moves_index_rows :
+  let st := run_txs c03bareP_schema 8 st_empty
+              [mkTx false [] [bare_mk bm_pc [97] [110] bare_grp1] false;
+               mkTx false [] [OUpdate bm_pc [97] [] [(bm_roles, bare_grp2)] (Some [bm_roles])] false] in
+  sidx st bm_p bm_roles = [([97;44;98], [[97]]); ([99], [[97]])].
+Proof. vm_compute. reflexivity. Qed.
